@@ -69,7 +69,16 @@ pub(crate) fn convert(
                 }
             };
 
-            rect = rect.bbox_transform(object_bbox);
+            rect = match crate::checked_bbox_transform(rect, object_bbox) {
+                Some(v) => v,
+                None => {
+                    log::warn!(
+                        "Filter '{}' has an invalid region. Skipped.",
+                        node.element_id()
+                    );
+                    return;
+                }
+            };
 
             filters.push(Arc::new(Filter {
                 id: cache.gen_filter_id(),
@@ -224,7 +233,14 @@ fn convert_url(
 
     if units == Units::ObjectBoundingBox {
         if let Some(object_bbox) = object_bbox {
-            rect = rect.bbox_transform(object_bbox);
+            rect = crate::checked_bbox_transform(rect, object_bbox)
+                .log_none(|| {
+                    log::warn!(
+                        "Filter '{}' has an invalid region. Skipped.",
+                        node.element_id()
+                    )
+                })
+                .ok_or(())?;
         } else {
             log::warn!("Filters on zero-sized shapes are not allowed.");
             return Err(());
@@ -408,7 +424,7 @@ fn resolve_primitive_region(
                     height.unwrap_or(1.0),
                 )?;
 
-                return Some(r.bbox_transform(bbox));
+                return crate::checked_bbox_transform(r, bbox);
             } else {
                 filter_region
             }
@@ -425,7 +441,7 @@ fn resolve_primitive_region(
             height.unwrap_or(1.0),
         )?;
 
-        Some(region.bbox_transform(subregion_bbox))
+        crate::checked_bbox_transform(region, subregion_bbox)
     } else {
         NonZeroRect::from_xywh(
             x.unwrap_or(region.x()),
